@@ -58,7 +58,7 @@ impl WalRecuperator {
                 .rev()
             {
                 if let Some(delete_operation) = analysis.delete_ops.get(&lsn) {
-                    self.undo_delete(delete_operation)?;
+                    self.undo_delete(delete_operation, *redo_transaction)?;
                 }
                 if let Some(update_operation) = analysis.update_ops.get(&lsn) {
                     self.undo_update(update_operation)?;
@@ -289,10 +289,13 @@ impl WalRecuperator {
     }
 
     // DML Undo operations
-    fn undo_delete(&mut self, delete_op: &Delete) -> RuntimeResult<()> {
+    fn undo_delete(&mut self, delete_op: &Delete, loser: crate::types::TransactionId) -> RuntimeResult<()> {
         let table_id = delete_op
             .object_id()
             .expect("Table id must be set for DML logs");
+        let row_id = delete_op
+            .row_id()
+            .expect("Row id must be set for DML logs");
 
         let builder = self.dml_executor.ctx().tree_builder();
         let snapshot = self.dml_executor.ctx().snapshot();
@@ -304,13 +307,10 @@ impl WalRecuperator {
             .get_relation(table_id, &builder, &snapshot)?;
 
         let schema = table.schema();
-
-        if let Some(row) =
-            Some(Row::from_bytes_checked(delete_op.undo(), schema)?)
-        {
-            let columns = schema.column_indexes();
-            self.dml_executor.insert(table_id, &columns, &row)?;
-        }
+        let row = Row::from_bytes_checked(delete_op.undo(), schema)?;
+        let columns = schema.column_indexes();
+        self.dml_executor
+            .undo_delete(table_id, row_id, loser, &columns, &row)?;
         Ok(())
     }
 
@@ -429,7 +429,8 @@ impl WalRecuperator {
             Some(Row::from_bytes_checked(insert_op.redo(), schema)?)
         {
             let columns = schema.column_indexes();
-            self.dml_executor.insert(table_id, &columns, &row)?;
+            self.dml_executor
+                .insert_with_row_id(table_id, &columns, &row, insert_op.row_id())?;
         }
         Ok(())
     }
